@@ -621,3 +621,11 @@ fn c18_expect_window_three_pieces() {
     check_v6([51, 1, 64, 64]);
     kani::cover!(true, "reached");
 }
+
+/// quick-tier three-piece case with an empty wake-up in the middle
+#[kani::proof]
+#[kani::unwind(66)]
+fn c18_expect_window_v4_13_0_15() {
+    check_v4([13, 0, 15, 64]);
+    kani::cover!(true, "reached");
+}
